@@ -144,7 +144,7 @@ func (d *Describer) val(v ssa.Value, depth int) string {
 	case *ssa.Call:
 		return d.call(&x.Call, depth) + d.objOps(x, depth)
 	case *ssa.MakeSlice:
-		return "make(" + typeStr(x.Type()) + ")"
+		return "make(" + typeStr(x.Type()) + ", " + d.val(x.Len, depth+1) + ")"
 	case *ssa.MakeMap:
 		return "make(" + typeStr(x.Type()) + ")"
 	case *ssa.MakeChan:
